@@ -31,7 +31,8 @@ var builtin = []string{
 
 // isIDValid checks if a name is a valid identifier in Go.
 func isIDValid(name string) bool {
-	return idRegex.MatchString(name) && !generic.AnyMatch(builtin, func(s string) bool {
+	// The blank identifier matches the syntax of an identifier but cannot name a package.
+	return name != "_" && idRegex.MatchString(name) && !generic.AnyMatch(builtin, func(s string) bool {
 		return s == name
 	})
 }
